@@ -157,6 +157,7 @@ class Heap:
         self.used = 0
         self.alloc0 = self.alloc
         self.ev_alloc = {}      # key -> alloc term at the time the component was last modified
+        self.ev_pos = {}        # key -> (epoch, used) position of that mark
 
     def copy(self):
         h = Heap.__new__(Heap)
@@ -165,6 +166,7 @@ class Heap:
         h.alloc = self.alloc
         h.epoch, h.info, h.base, h.used = self.epoch, dict(self.info), self.base, self.used
         h.alloc0, h.ev_alloc = self.alloc0, dict(self.ev_alloc)
+        h.ev_pos = dict(self.ev_pos)
         h.base_alloc = dict(getattr(self, 'base_alloc', {}))
         return h
 
@@ -190,13 +192,47 @@ class Heap:
         self._keep = getattr(self, '_keep', [])
         self._keep.append(ref)
 
+    def pos(self):
+        return (self.epoch, self.used)
+
+    def note_below(self, ref, pos):
+        """ref is known to be smaller than the allocation mark at position pos = (epoch, used)"""
+        cur = self.info.get(ref.get_id())
+        if cur is None or (cur[0] == 'lt' and pos < cur[1]):
+            self.info[ref.get_id()] = ('lt', pos)
+            self._keep = getattr(self, '_keep', [])
+            self._keep.append(ref)
+
+    def known_below(self, ref, pos):
+        i = self.info.get(ref.get_id())
+        if i is None:
+            return False
+        if i[0] == 'lt':
+            return i[1] <= pos
+        if i[0] == -1:
+            return True
+        return i[1] is not None and (i[0], i[1]) < pos
+
     def distinct(self, a, b):
         ia, ib = self.info.get(a.get_id()), self.info.get(b.get_id())
         if ia is None or ib is None:
             return False
-        if ia[0] != ib[0]:
-            return True
-        return ia[1] is not None and ib[1] is not None and ia[1] != ib[1]
+        def norm(i):
+            if i[0] == 'lt':
+                return ('lt', i[1])
+            if i[0] == -1:
+                return ('lt', (0, 0))
+            return ('at', (i[0], i[1])) if i[1] is not None else None
+        na, nb = norm(ia), norm(ib)
+        if na is None or nb is None:
+            return False
+        if na[0] == 'at' and nb[0] == 'at':
+            return na[1] != nb[1]
+        if na[0] == 'lt' and nb[0] == 'at':
+            return nb[1] >= na[1]
+        if na[0] == 'at' and nb[0] == 'lt':
+            return na[1] >= nb[1]
+        return False
 
     def _sort(self, key):
         if key in ('len', 'sh0', 'sh1'):
@@ -228,6 +264,9 @@ class Heap:
             t = z3.Store(t, r, v)
         return t
 
+    def bound_pos(self, key):
+        return self.ev_pos.get(key, (0, 0))
+
     def bound(self, key):
         """every reference stored in component `key` is below this allocation mark (the component has not
         been modified since, and no reference is ever stored before it is allocated)"""
@@ -236,6 +275,7 @@ class Heap:
     def set(self, key, term):
         self.m[key] = [term, []]
         self.ev_alloc[key] = self.alloc
+        self.ev_pos[key] = self.pos()
         self.base_alloc = dict(getattr(self, 'base_alloc', {}))
         self.base_alloc[key] = self.alloc
 
@@ -262,6 +302,7 @@ class Heap:
         else:
             log.append((ref, val))
         self.ev_alloc[key] = self.alloc
+        self.ev_pos[key] = self.pos()
 
 
 class State:
